@@ -296,6 +296,20 @@ Proof.
   destruct (crc_sum16 (crc_write crc [c1; c2]) =? 0); reflexivity.
 Qed.
 
+Theorem check_crc_ok_full : forall fuel rd crc f c1 c2 rest,
+  rd_data rd = [c1; c2] ++ rest ->
+  (length (rd_data rd) + length (rd_sched rd) < fuel)%nat ->
+  crc_sum16 (crc_write crc [c1; c2]) = 0 ->
+  exists rd', check_crc fuel rd crc f = Done (None, set_crc f (le16 [c1; c2]), rd') /\
+    rd_pos rd' = (rd_pos rd + 2)%nat /\ rd_data rd' = rest /\
+    rd_term rd' = rd_term rd /\ rd_ewd rd' = rd_ewd rd /\
+    (length (rd_data rd') + length (rd_sched rd') <= length (rd_data rd) + length (rd_sched rd))%nat.
+Proof.
+  intros fuel rd crc f c1 c2 rest Hd Hf Hz.
+  destruct (check_crc_run fuel rd crc f c1 c2 rest Hd Hf) as (rd' & R & P & D & T & E & M).
+  exists rd'. rewrite Hz in R. repeat split; assumption.
+Qed.
+
 Theorem check_crc_ok : forall fuel rd crc f c1 c2 rest,
   rd_data rd = [c1; c2] ++ rest ->
   (length (rd_data rd) + length (rd_sched rd) < fuel)%nat ->
@@ -407,7 +421,7 @@ Proof.
   apply is_bytes_app; [now apply hdr_bytes_bytes|assumption].
 Qed.
 
-Theorem decode_frame : forall o g rd fuel h data extra s1,
+Theorem decode_frame_full : forall o g rd fuel h data extra s1,
   header_wf h -> is_bytes data -> h_dsize h = N.of_nat (length data) ->
   rd_data rd = frame_bytes h data ++ extra ->
   (length (rd_data rd) + length (rd_sched rd) < fuel)%nat ->
@@ -421,7 +435,9 @@ Theorem decode_frame : forall o g rd fuel h data extra s1,
                (Some (finalize_unknown o (with_file s1 (set_crc (ds_file s1) (file_crc h data)) (ds_g s1))))
                rd' (ds_g s1) (ds_quirks s1)) /\
     rd_pos rd' = (rd_pos rd + length (frame_bytes h data))%nat /\
-    rd_data rd' = extra.
+    rd_data rd' = extra /\
+    rd_term rd' = rd_term rd /\
+    (length (rd_data rd') + length (rd_sched rd') <= length (rd_data rd) + length (rd_sched rd))%nat.
 Proof.
   intros o g rd fuel h data extra s1 Hwf Hb Hds Hd Hf Hrun.
   pose proof (frame_bytes_length h data Hwf) as Hfl.
@@ -449,15 +465,57 @@ Proof.
   rewrite <- Hn, <- Hli, Nat.eqb_refl. cbn [negb].
   rewrite <- Hn, Nat.add_0_r, firstn_app_exact in Hc.
   rewrite <- Hc in Hres.
-  destruct (check_crc_ok fuel (c_rd c') (c_crc c') (ds_file s1)
+  destruct (check_crc_ok_full fuel (c_rd c') (c_crc c') (ds_file s1)
               (file_crc h data mod 256) ((file_crc h data / 256) mod 256) extra
-              (eq_sym Hr) ltac:(lia) Hres) as (rd3 & R3 & P3 & D3).
+              (eq_sym Hr) ltac:(lia) Hres) as (rd3 & R3 & P3 & D3 & T3 & _ & M3).
   rewrite R3.
   change [file_crc h data mod 256; (file_crc h data / 256) mod 256] with (put_le16 (file_crc h data)).
   rewrite (le16_put_le16 _ Hclt).
-  exists rd3. split; [reflexivity|]. split; [|assumption].
-  rewrite P3, Hp, P1, Hfl, Hhl, <- Hn. lia.
+  exists rd3. split; [reflexivity|]. split; [|split; [assumption|split]].
+  - rewrite P3, Hp, P1, Hfl, Hhl, <- Hn. lia.
+  - rewrite T3, <- Ht. reflexivity.
+  - lia.
 Qed.
+
+Theorem decode_frame : forall o g rd fuel h data extra s1,
+  header_wf h -> is_bytes data -> h_dsize h = N.of_nat (length data) ->
+  rd_data rd = frame_bytes h data ++ extra ->
+  (length (rd_data rd) + length (rd_sched rd) < fuel)%nat ->
+  run_a (data_prog o false (S (length data)))
+        (mk_ast (data ++ put_le16 (file_crc h data) ++ extra) (rd_term rd) 0 (length data))
+        (init_dstate (new_file h) g)
+    = ROk tt (mk_ast (put_le16 (file_crc h data) ++ extra) (rd_term rd) (length data) (length data)) s1 ->
+  exists rd',
+    decode o MFull g rd fuel =
+      TDone (mk_dres None h
+               (Some (finalize_unknown o (with_file s1 (set_crc (ds_file s1) (file_crc h data)) (ds_g s1))))
+               rd' (ds_g s1) (ds_quirks s1)) /\
+    rd_pos rd' = (rd_pos rd + length (frame_bytes h data))%nat /\
+    rd_data rd' = extra.
+Proof.
+  intros o g rd fuel h data extra s1 Hwf Hb Hds Hd Hf Hrun.
+  destruct (decode_frame_full o g rd fuel h data extra s1 Hwf Hb Hds Hd Hf Hrun) as (rd' & H1 & H2 & H3 & _).
+  exists rd'. repeat split; assumption.
+Qed.
+
+Corollary entry_Decode_frame_full : forall o g rd fuel h data extra s1,
+  header_wf h -> is_bytes data -> h_dsize h = N.of_nat (length data) ->
+  rd_data rd = frame_bytes h data ++ extra ->
+  (length (rd_data rd) + length (rd_sched rd) < fuel)%nat ->
+  run_a (data_prog o false (S (length data)))
+        (mk_ast (data ++ put_le16 (file_crc h data) ++ extra) (rd_term rd) 0 (length data))
+        (init_dstate (new_file h) g)
+    = ROk tt (mk_ast (put_le16 (file_crc h data) ++ extra) (rd_term rd) (length data) (length data)) s1 ->
+  exists rd',
+    entry_Decode o g rd fuel =
+      TDone (mk_dres None h
+               (Some (finalize_unknown o (with_file s1 (set_crc (ds_file s1) (file_crc h data)) (ds_g s1))))
+               rd' (ds_g s1) (ds_quirks s1)) /\
+    rd_pos rd' = (rd_pos rd + length (frame_bytes h data))%nat /\
+    rd_data rd' = extra /\
+    rd_term rd' = rd_term rd /\
+    (length (rd_data rd') + length (rd_sched rd') <= length (rd_data rd) + length (rd_sched rd))%nat.
+Proof. unfold entry_Decode. exact decode_frame_full. Qed.
 
 Corollary entry_Decode_frame : forall o g rd fuel h data extra s1,
   header_wf h -> is_bytes data -> h_dsize h = N.of_nat (length data) ->
@@ -526,6 +584,87 @@ Proof.
   repeat split; try reflexivity; [congruence|lia].
 Qed.
 
+(* ------------------------------------------------------------ 5. what follows the frame is never looked at *)
+Local Close Scope N_scope.
+
+(* inside the limit a_take neither reaches the tail nor the terminal condition *)
+Lemma a_take_tail k l tl t n lim : n + length l = lim ->
+  a_take k (mk_ast (l ++ tl) t n lim) =
+    if Nat.leb k (length l) then inl (firstn k l, mk_ast (skipn k l ++ tl) t (n + k) lim) else inr IOBeyond.
+Proof.
+  intros Hn. unfold a_take. cbn [a_rest a_term a_n a_limit]. rewrite app_length.
+  replace (lim - n) with (length l) by lia.
+  replace (Nat.min (length l) (length l + length tl)) with (length l) by lia.
+  destruct (Nat.leb_spec k (length l)) as [L|L].
+  - rewrite firstn_app, skipn_app. replace (k - length l) with 0 by lia. cbn [firstn skipn]. rewrite app_nil_r. reflexivity.
+  - replace (Nat.leb (length l) (length l + length tl)) with true by (symmetry; apply Nat.leb_le; lia). reflexivity.
+Qed.
+
+(* tail irrelevance of the abstract interpreter: a run that starts with exactly the bytes l up to the limit
+   gives the same outcome, state and value whatever follows l and whatever the terminal condition is *)
+Definition tail_rel {S E A} (tl tl' : list N) (t t' : term) (lim : nat) (r r' : result ast S E A) : Prop :=
+  match r, r' with
+  | ROk a x s, ROk a' x' s' =>
+      a = a' /\ s = s' /\ exists l' n', n' + length l' = lim /\ x = mk_ast (l' ++ tl) t n' lim /\ x' = mk_ast (l' ++ tl') t' n' lim
+  | RFail e x s, RFail e' x' s' =>
+      e = e' /\ s = s' /\ exists l' n', n' + length l' = lim /\ x = mk_ast (l' ++ tl) t n' lim /\ x' = mk_ast (l' ++ tl') t' n' lim
+  | RIOErr e x s, RIOErr e' x' s' =>
+      e = IOBeyond /\ e' = IOBeyond /\ s = s' /\
+      exists l' n', n' + length l' = lim /\ x = mk_ast (l' ++ tl) t n' lim /\ x' = mk_ast (l' ++ tl') t' n' lim
+  | RPanic w, RPanic w' => w = w'
+  | _, _ => False
+  end.
+
+Theorem run_a_tail {S E A} : forall (p : prog S E A) l tl tl' t t' n lim s, n + length l = lim ->
+  tail_rel tl tl' t t' lim (run_a p (mk_ast (l ++ tl) t n lim) s) (run_a p (mk_ast (l ++ tl') t' n lim) s).
+Proof.
+  induction p as [y|e|w|k IH|m k IH|k IH|k IH|s0 k IH]; intros l tl tl' t t' n lim s Hn; cbn [run_a].
+  - cbn [tail_rel]. split; [reflexivity|]. split; [reflexivity|]. exists l, n. repeat split; assumption.
+  - cbn [tail_rel]. split; [reflexivity|]. split; [reflexivity|]. exists l, n. repeat split; assumption.
+  - reflexivity.
+  - rewrite !(a_take_tail 1 l _ _ n lim Hn).
+    destruct (Nat.leb_spec 1 (length l)) as [L|L].
+    + apply IH. rewrite skipn_length. lia.
+    + cbn [tail_rel]. repeat split. exists l, n. repeat split; assumption.
+  - rewrite !(a_take_tail m l _ _ n lim Hn).
+    destruct (Nat.leb_spec m (length l)) as [L|L].
+    + apply IH. rewrite skipn_length. lia.
+    + cbn [tail_rel]. repeat split. exists l, n. repeat split; assumption.
+  - cbn [a_n a_limit]. apply IH. exact Hn.
+  - apply IH. exact Hn.
+  - apply IH. exact Hn.
+Qed.
+
+(* the form used by the framing lemma: a successful run that ends at the limit *)
+Corollary run_a_tail_ok {S E A} : forall (p : prog S E A) l tl tl' t t' a s s1,
+  run_a p (mk_ast (l ++ tl) t 0 (length l)) s = ROk a (mk_ast tl t (length l) (length l)) s1 ->
+  run_a p (mk_ast (l ++ tl') t' 0 (length l)) s = ROk a (mk_ast tl' t' (length l) (length l)) s1.
+Proof.
+  intros p l tl tl' t t' a s s1 H.
+  pose proof (run_a_tail p l tl tl' t t' 0 (length l) s eq_refl) as HT.
+  rewrite H in HT.
+  destruct (run_a p (mk_ast (l ++ tl') t' 0 (length l)) s) as [a' x' s'|e x' s'|e x' s'|w|]; cbn [tail_rel] in HT; try contradiction.
+  destruct HT as (<- & <- & l' & n' & Hn & Hx & Hx'). subst x'.
+  inversion Hx as [[H1 H2]]. 
+  assert (Hl' : l' = []) by (destruct l'; [reflexivity|cbn [length] in Hn; lia]).
+  subst l'. cbn [app]. reflexivity.
+Qed.
+
+(* ------------------------------------------------------------ 6. the clean end of input *)
+Lemma decode_header_eof : forall fuel rd, rd_data rd = [] -> rd_term rd = TEOF ->
+  decode_header (S fuel) rd = Done (Some EReadSizeEOF, zero_header, 0%N, rd).
+Proof.
+  intros fuel rd Hd Ht. unfold decode_header. cbn [io_read_full length Nat.leb].
+  unfold rd_read. rewrite Hd, Ht. cbn [app length Nat.leb]. reflexivity.
+Qed.
+
+Lemma decode_eof : forall o md g fuel rd, rd_data rd = [] -> rd_term rd = TEOF -> (1 <= fuel) ->
+  decode o md g rd fuel = TDone (mk_dres (Some EReadSizeEOF) zero_header None rd g []).
+Proof.
+  intros o md g fuel rd Hd Ht Hf. destruct fuel as [|f]; [lia|].
+  unfold decode. rewrite (decode_header_eof f rd Hd Ht). reflexivity.
+Qed.
+
 Print Assumptions io_read_full_exact.
 Print Assumptions decode_header_ok.
 Print Assumptions check_crc_ok.
@@ -534,3 +673,6 @@ Print Assumptions run_c_measure.
 Print Assumptions entry_Decode_frame.
 Print Assumptions decode_frame_schedule_independent.
 Print Assumptions decode_frame.
+Print Assumptions decode_frame_full.
+Print Assumptions run_a_tail.
+Print Assumptions decode_eof.
